@@ -31,13 +31,16 @@ var topoNames = []string{
 	"web@p1 db@p2",
 	"web@p1+p2 db@p1",
 	"web@p1+p2",
+	"web@p1(profile a)+p2(the other profile, same count) db@p2+p1(same profile, counts n and n+1)",
 }
+
+func topoHasDb(topo int) bool { return topo == 1 || topo == 2 || topo == 3 || topo == 5 }
 
 func quickScope() Scope {
 	return Scope{
 		Name:      "quick",
-		Topo:      []int{0, 1, 2, 3, 4},
-		WebCAE:    []int{0, 1, 4},
+		Topo:      []int{0, 1, 2, 3, 4, 5},
+		WebCAE:    []int{0, 4},
 		WebExpose: []int{0, 1, 2, 3, 4},
 		DbCAE:     []int{0, 4},
 		DbExpose:  []int{0, 1, 2, 3},
@@ -51,7 +54,7 @@ func quickScope() Scope {
 func thoroughScope() Scope {
 	return Scope{
 		Name:      "thorough",
-		Topo:      []int{0, 1, 2, 3, 4},
+		Topo:      []int{0, 1, 2, 3, 4, 5},
 		WebCAE:    []int{0, 1, 2, 3, 4},
 		WebExpose: []int{0, 1, 2, 3, 4},
 		DbCAE:     []int{0, 1, 4},
@@ -100,7 +103,9 @@ func webExpose(v int, other string) []Expose {
 	case 3:
 		return []Expose{{Port: 80, Proto: "tcp", To: []To{{Service: other}, {Global: true}}}}
 	case 4:
-		return []Expose{{Port: 3000, As: 80, To: []To{{Global: true}}}, {Port: 3001, As: 81, To: []To{{Service: other}}}, {Port: 3002}}
+		// 3000 published as 80 (shared http), 80 published as 8080 (NOT http: the published port decides), inter-service, local
+		return []Expose{{Port: 3000, As: 80, To: []To{{Global: true}}}, {Port: 80, As: 8080, Proto: "tcp", To: []To{{Global: true}}},
+			{Port: 3001, As: 81, To: []To{{Service: other}}}, {Port: 3002}}
 	}
 	panic("webExpose")
 }
@@ -177,7 +182,7 @@ func placementOf(name string, v int) Placement {
 func Enumerate(sc Scope) (docs []Doc, illformed []Doc) {
 	profiles := []string{"small", "large"}
 	for _, topo := range sc.Topo {
-		hasDb := topo == 1 || topo == 2 || topo == 3
+		hasDb := topoHasDb(topo)
 		dbCAE, dbEx, dbProf, dbCount := []int{-1}, []int{-1}, []string{""}, []uint32{0}
 		if hasDb {
 			dbCAE, dbEx, dbProf, dbCount = sc.DbCAE, sc.DbExpose, profiles, sc.DbCount
@@ -276,7 +281,7 @@ func rename(d Doc, nv int) Doc {
 func namesScope() Scope {
 	return Scope{
 		Name:      "names",
-		Topo:      []int{1, 2, 3, 4},
+		Topo:      []int{1, 2, 3, 4, 5},
 		WebCAE:    []int{0},
 		WebExpose: []int{0, 3},
 		DbCAE:     []int{0},
@@ -290,7 +295,7 @@ func namesScope() Scope {
 }
 
 func build(topo, wc, we, dc, de int, wp, dp string, r, pv int, wn, dn uint32) Doc {
-	hasDb := topo == 1 || topo == 2 || topo == 3
+	hasDb := topoHasDb(topo)
 	other := "web"
 	if hasDb {
 		other = "db"
@@ -326,6 +331,16 @@ func build(topo, wc, we, dc, de int, wp, dp string, r, pv int, wn, dn uint32) Do
 	case 4:
 		d.Placements = []Placement{placementOf("p2", pv+1), placementOf("p1", pv)}
 		d.Deployment = []DeployEntry{{"web", []DeployAt{{"p2", wp, wn + 1}, {"p1", wp, wn}}}}
+	case 5: // both services in both placements; web with a different profile per placement
+		otherProfile := "small"
+		if wp == "small" {
+			otherProfile = "large"
+		}
+		d.Placements = []Placement{placementOf("p2", pv+1), placementOf("p1", pv)}
+		d.Deployment = []DeployEntry{
+			{"web", []DeployAt{{"p1", wp, wn}, {"p2", otherProfile, wn}}},
+			{"db", []DeployAt{{"p2", dp, dn}, {"p1", dp, dn + 1}}},
+		}
 	}
 	return d
 }
